@@ -187,6 +187,14 @@ func (s *Sess) Exec(sql string) (res ExecResult) {
 	return s.ExecStmts(stmts)
 }
 
+// ExecCtx is Exec with a caller-supplied context (e.g. one that a monitor cancels at a hook point).
+func (s *Sess) ExecCtx(ctx context.Context, sql string) (res ExecResult) {
+	old := s.Ctx
+	s.Ctx = ctx
+	defer func() { s.Ctx = old }()
+	return s.Exec(sql)
+}
+
 func (s *Sess) ExecStmts(stmts []parser.Statement) (res ExecResult) {
 	defer func() {
 		if r := recover(); r != nil {
